@@ -94,11 +94,25 @@ ExtBody(x) ==
     [] x.k = "token_binding"    -> ExtTokenBinding(x)
 TypedExtension(x) == U16(x.type) \o Vec2(ExtBody(x))
 
-\* SSL 2.0: two-byte record header with the most significant bit set, 15-bit length, no padding
+\* SSL 2.0 (draft 02 section 5): two-byte record header with the most significant bit set and a 15-bit length, no padding;
+\* or three-byte header, most significant bit clear, 14-bit length that COVERS the padding, then the padding count
 Ssl2Record(mtype, body) == U16(32768 + 1 + Len(body)) \o U8(mtype) \o body
-Ssl2Error(m) == Ssl2Record(0, U16(m.error))
-Ssl2ClientHello(m) == Ssl2Record(1, U16(m.version) \o U16(3 * Len(m.cipher_kinds)) \o U16(Len(m.session_id)) \o U16(Len(m.challenge))
-                                    \o Flatten([i \in 1..Len(m.cipher_kinds) |-> U24(m.cipher_kinds[i])]) \o m.session_id \o m.challenge)
+Ssl2RecordPadded(mtype, body, pad) == U16(1 + Len(body) + pad) \o U8(pad) \o U8(mtype) \o body \o [i \in 1..pad |-> 0]
+Ssl2ErrorBody(m) == U16(m.error)
+Ssl2ClientHelloBody(m) == U16(m.version) \o U16(3 * Len(m.cipher_kinds)) \o U16(Len(m.session_id)) \o U16(Len(m.challenge))
+                          \o Flatten([i \in 1..Len(m.cipher_kinds) |-> U24(m.cipher_kinds[i])]) \o m.session_id \o m.challenge
+\* SERVER-HELLO: SESSION-ID-HIT(1) CERTIFICATE-TYPE(1)=X.509(1) SERVER-VERSION(2) three 2-byte lengths, then the three fields
+Ssl2ServerHelloBody(m) == U8(IF m.session_id_hit THEN 1 ELSE 0) \o U8(1) \o U16(m.version) \o U16(Len(m.certificate))
+                          \o U16(3 * Len(m.cipher_kinds)) \o U16(Len(m.connection_id)) \o m.certificate
+                          \o Flatten([i \in 1..Len(m.cipher_kinds) |-> U24(m.cipher_kinds[i])]) \o m.connection_id
+Ssl2Type(kind) == CASE kind = "ssl2_error" -> 0 [] kind = "ssl2_client_hello" -> 1 [] kind = "ssl2_server_hello" -> 4
+Ssl2Body(kind, m) == CASE kind = "ssl2_error" -> Ssl2ErrorBody(m) [] kind = "ssl2_client_hello" -> Ssl2ClientHelloBody(m)
+                       [] kind = "ssl2_server_hello" -> Ssl2ServerHelloBody(m)
+Ssl2Error(m) == Ssl2Record(0, Ssl2ErrorBody(m))
+Ssl2ClientHello(m) == Ssl2Record(1, Ssl2ClientHelloBody(m))
+Ssl2ServerHello(m) == Ssl2Record(4, Ssl2ServerHelloBody(m))
+\* the same message in the three-byte-header form with pad octets of padding (a second conformant encoding)
+EncSsl2Padded(kind, m, pad) == Ssl2RecordPadded(Ssl2Type(kind), Ssl2Body(kind, m), pad)
 
 Enc(kind, m) ==
   CASE kind = "record"            -> Record(m)
@@ -111,4 +125,5 @@ Enc(kind, m) ==
     [] kind = "extension"         -> TypedExtension(m)
     [] kind = "ssl2_error"        -> Ssl2Error(m)
     [] kind = "ssl2_client_hello" -> Ssl2ClientHello(m)
+    [] kind = "ssl2_server_hello" -> Ssl2ServerHello(m)
 =============================================================================
